@@ -584,3 +584,31 @@ Proof. apply keeps_running_without_notice. Qed.
 Example no_notice_example :
   no_notice ex_env (n_id ex_node) (n_epoch ex_node) [[]; 2 :: cancel_only; ping_loop_packet; [1; 123]; [3]] = true.
 Proof. vm_compute. reflexivity. Qed.
+
+(* ---------- framing ---------- *)
+
+(* frame_pop returns exactly the announced number of bytes, taken from right behind the header,
+   and leaves exactly what follows them; it waits (None) iff fewer have arrived *)
+Theorem frame_pop_exact b m rest : frame_pop b = Some (m, rest) ->
+  exists lo hi, b = lo :: hi :: m ++ rest /\ List.length m = N.to_nat (lo + 256 * hi).
+Proof.
+  unfold frame_pop. destruct b as [|lo [|hi r]]; try discriminate.
+  destruct (Nat.leb (N.to_nat (lo + 256 * hi)) (List.length r)) eqn:E; [|discriminate].
+  intro H. inversion H; subst. exists lo, hi. split.
+  - now rewrite firstn_skipn.
+  - apply Nat.leb_le in E. now rewrite firstn_length_le.
+Qed.
+
+Theorem frame_pop_waits lo hi r :
+  frame_pop (lo :: hi :: r) = None <-> (List.length r < N.to_nat (lo + 256 * hi))%nat.
+Proof.
+  unfold frame_pop. destruct (Nat.leb (N.to_nat (lo + 256 * hi)) (List.length r)) eqn:E.
+  - apply Nat.leb_le in E. split; intro H; [discriminate|exfalso; lia].
+  - apply Nat.leb_gt in E. split; intro H; [exact E|reflexivity].
+Qed.
+
+(* the two headers a 16-bit sum would wrap on announce 65534 and 65535 bytes, not 0 and 1 *)
+Example frame_pop_no_wrap :
+  frame_pop [254; 255; 1; 2; 3] = None /\ frame_pop [255; 255; 1; 2; 3] = None /\
+  frame_pop [0; 0; 1; 2; 3] = Some ([], [1; 2; 3]) /\ frame_pop [1; 0; 1; 2; 3] = Some ([1], [2; 3]).
+Proof. vm_compute. repeat split. Qed.
